@@ -70,6 +70,18 @@ def run_case(idx, rng, P, rep):
     specs = [G.gen_spec(rng, rng.choice(G.C15_TYPES)) for _ in range(n)]
     cls, defaults = G.build_class(param, f'J{idx}', specs, rng)
     desc = G.describe(specs)
+    if rng.random() < 0.2:
+        # a deeper hierarchy: the parameters are declared at the top, a class in the middle gets new values at class level
+        # after the bottom class has been serialised once; what is serialised from here on is the bottom class
+        mid = type(f'J{idx}M', (cls,), {})
+        tip = type(f'J{idx}T', (type(f'J{idx}L', (mid,), {}),), {})
+        tip.param.serialize_parameters()
+        st0 = G.state(rng, specs)
+        for k in rng.sample(sorted(st0), min(2, len(st0))):
+            setattr(mid, k, st0[k])
+            defaults[k] = st0[k]
+        cls = tip
+        rep.count('class_level_sets_in_the_middle_of_a_hierarchy')
     by_name = {s['name']: s for s in specs}
 
     def viol(clause, ptype, msg, st=None):
